@@ -667,7 +667,7 @@ pub fn run(prop: &str, seed: u64, tier: &str, shard: usize, nshards: usize) -> S
     }
     // random longer scripts over two keys and all algorithms
     let mut rng = Rng::derive(seed, 0xFE7C + shard as u64);
-    let total_random = if tier == "thorough" { 60_000 } else { 8_000 };
+    let total_random = if tier == "thorough" { 300_000 } else { 40_000 };
     for i in 0..total_random / nshards.max(1) {
         let algo = crate::mem::ALGOS[i % 5];
         let len = 6 + rng.usize(14);
